@@ -16,8 +16,9 @@ def gen_libio():
     if "shutil.copy(lib_file.name, save_lib_path)" in comp:
         save = "InPlace"
     elif ("shutil.copy(lib_file.name, tmp_save_path)\nos.replace(tmp_save_path, save_lib_path)" in comp
-          and "tmp_save_path = f'{save_lib_path}.tmp{os.getpid()}'" in comp):
-        save = "AtomicRename"
+          and "tmp_fd, tmp_save_path = tempfile.mkstemp(prefix=os.path.basename(save_lib_path) + '.tmp', "
+              "dir=os.path.dirname(os.path.abspath(save_lib_path)))" in comp):
+        save = "AtomicRename"      # staged in a file of its own (per call) in the target directory, then renamed into place
     else:
         _fail("compile: unknown save discipline")
     if "lib = ctypes.cdll.LoadLibrary(lib_file.name)\nself._setup_library_function(lib)" not in comp:
